@@ -286,7 +286,10 @@ func voteMuts(which string, get func(d *kproto.DuplicateVoteEvidence) *kproto.Vo
 			v.BlockID.Hash = flipBytes(c.t, v.BlockID.Hash, "vote-id")
 			return "hash bitflip"
 		}),
-		mk("timestamp", func(c *tamperCtx, v *kproto.Vote) string { v.Timestamp = v.Timestamp.Add(time.Nanosecond); return "+1ns" }),
+		mk("timestamp", func(c *tamperCtx, v *kproto.Vote) string {
+			v.Timestamp = v.Timestamp.Add(time.Nanosecond)
+			return "+1ns"
+		}),
 		mk("address", func(c *tamperCtx, v *kproto.Vote) string {
 			v.ValidatorAddress = flipBytes(c.t, v.ValidatorAddress, "vote-addr")
 			return "bitflip"
@@ -305,8 +308,14 @@ func buildCatalogue() []mutation {
 	ms = append(ms,
 		hdrMut("height:+1", func(c *tamperCtx, h *kproto.Header) (string, bool) { h.Height++; return "", true }),
 		hdrMut("height:-1", func(c *tamperCtx, h *kproto.Header) (string, bool) { h.Height--; return "", true }),
-		hdrMut("time:+1ns", func(c *tamperCtx, h *kproto.Header) (string, bool) { h.Time = h.Time.Add(time.Nanosecond); return "", true }),
-		hdrMut("time:-1ns", func(c *tamperCtx, h *kproto.Header) (string, bool) { h.Time = h.Time.Add(-time.Nanosecond); return "", true }),
+		hdrMut("time:+1ns", func(c *tamperCtx, h *kproto.Header) (string, bool) {
+			h.Time = h.Time.Add(time.Nanosecond)
+			return "", true
+		}),
+		hdrMut("time:-1ns", func(c *tamperCtx, h *kproto.Header) (string, bool) {
+			h.Time = h.Time.Add(-time.Nanosecond)
+			return "", true
+		}),
 		hdrMut("time:+1s", func(c *tamperCtx, h *kproto.Header) (string, bool) { h.Time = h.Time.Add(time.Second); return "", true }),
 		hdrMut("time:drawn", func(c *tamperCtx, h *kproto.Header) (string, bool) {
 			d := time.Duration(rapid.Int64Range(-3_000_000_000, 3_000_000_000).Draw(c.t, "dt"))
@@ -321,14 +330,21 @@ func buildCatalogue() []mutation {
 			return "", true
 		}),
 		hdrMut("gaslimit:+1", func(c *tamperCtx, h *kproto.Header) (string, bool) { h.GasLimit++; return "", true }),
-		hdrMut("gaslimit:0", func(c *tamperCtx, h *kproto.Header) (string, bool) { ok := h.GasLimit != 0; h.GasLimit = 0; return "", ok }),
+		hdrMut("gaslimit:0", func(c *tamperCtx, h *kproto.Header) (string, bool) {
+			ok := h.GasLimit != 0
+			h.GasLimit = 0
+			return "", ok
+		}),
 		hdrMut("numtxs:+1", func(c *tamperCtx, h *kproto.Header) (string, bool) { h.NumTxs++; return "", true }),
 		hdrMut("numtxs:0", func(c *tamperCtx, h *kproto.Header) (string, bool) { ok := h.NumTxs != 0; h.NumTxs = 0; return "", ok }),
 		hdrMut("lastblockid:hash-bitflip", func(c *tamperCtx, h *kproto.Header) (string, bool) {
 			h.LastBlockId.Hash = flipBytes(c.t, h.LastBlockId.Hash, "lbid")
 			return "", true
 		}),
-		hdrMut("lastblockid:parts-total+1", func(c *tamperCtx, h *kproto.Header) (string, bool) { h.LastBlockId.PartSetHeader.Total++; return "", true }),
+		hdrMut("lastblockid:parts-total+1", func(c *tamperCtx, h *kproto.Header) (string, bool) {
+			h.LastBlockId.PartSetHeader.Total++
+			return "", true
+		}),
 		hdrMut("lastblockid:parts-hash-bitflip", func(c *tamperCtx, h *kproto.Header) (string, bool) {
 			h.LastBlockId.PartSetHeader.Hash = flipBytes(c.t, h.LastBlockId.PartSetHeader.Hash, "lbph")
 			return "", true
@@ -375,7 +391,7 @@ func buildCatalogue() []mutation {
 			if len(d.Txs) == 0 {
 				return "", false
 			}
-			i := rapid.IntRange(0, len(d.Txs)-1).Draw(c.t, "tx")
+			i := txIndex(c.t, len(d.Txs))
 			d.Txs = append(d.Txs[:i:i], d.Txs[i+1:]...)
 			return fmt.Sprintf("#%d", i), true
 		}),
@@ -388,7 +404,7 @@ func buildCatalogue() []mutation {
 			if len(d.Txs) == 0 {
 				return "", false
 			}
-			i := rapid.IntRange(0, len(d.Txs)-1).Draw(c.t, "tx")
+			i := txIndex(c.t, len(d.Txs))
 			d.Txs = append(d.Txs[:i:i], append([][]byte{cloneBytes(d.Txs[i])}, d.Txs[i:]...)...)
 			return fmt.Sprintf("#%d", i), true
 		}),
@@ -408,7 +424,7 @@ func buildCatalogue() []mutation {
 			if len(d.Txs) == 0 {
 				return "", false
 			}
-			i := rapid.IntRange(0, len(d.Txs)-1).Draw(c.t, "tx")
+			i := txIndex(c.t, len(d.Txs))
 			n := poolTx(c)
 			if bytes.Equal(n, d.Txs[i]) {
 				return "", false
@@ -420,7 +436,7 @@ func buildCatalogue() []mutation {
 			if len(d.Txs) == 0 {
 				return "", false
 			}
-			i := rapid.IntRange(0, len(d.Txs)-1).Draw(c.t, "tx")
+			i := txIndex(c.t, len(d.Txs))
 			d.Txs[i] = flipBytes(c.t, d.Txs[i], "tx-byte")
 			return fmt.Sprintf("#%d", i), true
 		}),
@@ -441,7 +457,10 @@ func buildCatalogue() []mutation {
 			lc.BlockID.Hash = flipBytes(c.t, lc.BlockID.Hash, "cid")
 			return "", true
 		}),
-		commitMut("blockid:parts-total+1", func(c *tamperCtx, lc *kproto.Commit) (string, bool) { lc.BlockID.PartSetHeader.Total++; return "", true }),
+		commitMut("blockid:parts-total+1", func(c *tamperCtx, lc *kproto.Commit) (string, bool) {
+			lc.BlockID.PartSetHeader.Total++
+			return "", true
+		}),
 		commitMut("blockid:parts-hash-bitflip", func(c *tamperCtx, lc *kproto.Commit) (string, bool) {
 			lc.BlockID.PartSetHeader.Hash = flipBytes(c.t, lc.BlockID.PartSetHeader.Hash, "cph")
 			return "", true
@@ -577,8 +596,14 @@ func buildCatalogue() []mutation {
 			d.VoteA, d.VoteB = d.VoteB, d.VoteA
 			return "", true
 		}),
-		evMut("total-power", func(c *tamperCtx, d *kproto.DuplicateVoteEvidence) (string, bool) { d.TotalVotingPower++; return "+1", true }),
-		evMut("validator-power", func(c *tamperCtx, d *kproto.DuplicateVoteEvidence) (string, bool) { d.ValidatorPower++; return "+1", true }),
+		evMut("total-power", func(c *tamperCtx, d *kproto.DuplicateVoteEvidence) (string, bool) {
+			d.TotalVotingPower++
+			return "+1", true
+		}),
+		evMut("validator-power", func(c *tamperCtx, d *kproto.DuplicateVoteEvidence) (string, bool) {
+			d.ValidatorPower++
+			return "+1", true
+		}),
 		evMut("timestamp", func(c *tamperCtx, d *kproto.DuplicateVoteEvidence) (string, bool) {
 			d.Timestamp = d.Timestamp.Add(time.Nanosecond)
 			return "+1ns", true
@@ -770,4 +795,19 @@ func TestTamper(t *testing.T) {
 			ev.ClassN("field:"+k, int64(v))
 		}
 	})
+}
+
+// txIndex draws a transaction position, biased towards the places where the index encoding used by DeriveSha changes
+// (0, 0x7e, 0x7f, 0x80) and the ends of the list.
+func txIndex(t *rapid.T, n int) int {
+	if n > 1 && rapid.Bool().Draw(t, "tx-boundary") {
+		var cand []int
+		for _, c := range []int{0, 126, 127, 128, n - 1} {
+			if c < n {
+				cand = append(cand, c)
+			}
+		}
+		return rapid.SampledFrom(cand).Draw(t, "tx")
+	}
+	return rapid.IntRange(0, n-1).Draw(t, "tx")
 }
